@@ -234,7 +234,7 @@ def run(ck):
     rng = ck.rng
     big = ck.thorough
     # 1. random histories, memory and disk
-    n = 1500 if big else 110
+    n = 4000 if big else 110
     cases = [gen_case(rng, rng.randint(20, 400 if big else 140)) for _ in range(n)]
     # fragment 5 (the smallest value config.HlsFragment() can return) with a coarse frame rate
     cases += [gen_case(rng, rng.randint(60, 300 if big else 120), frag=5) for _ in range(n // 5)]
